@@ -420,4 +420,18 @@ def enum_tag_bijection(ctx, prog, rule):
         okr = any(strip(Rr.operand(t["args"][0])) == ("const", "&str", "imageMask") for bi, t in fr.calls(lambda c, t: c == "blob::Blob::from_parent_node"))
         n += 1
         ctx.ob(rule, "mask-tag/%s" % rep, okw and okr, "mask blob uses tag imageMask in xml_string (%s) and from_node (%s)" % (okw, okr))
+        # the descriptor found is the descriptor reported: no filter on its length or offset in between (a mask of
+        # length zero is a mask)
+        verdict, desc = None, "no %s literal found" % rep
+        for bi in fr.cfg():
+            for st in fr.blocks[bi]["stmts"]:
+                rv = st["rv"]
+                if is_variant_agg(rv, "images::" + rep, rep) and "mask" in rv["kind"]["fields"]:
+                    v = strip(Rr.operand(rv["ops"][rv["kind"]["fields"].index("mask")]))
+                    desc = tree_str(strip_deep(v))[:120]
+                    if v[0] == "call" and v[1] == "blob::Blob::from_parent_node":
+                        verdict = True
+                    elif any(x[0] == "call" and x[1].rsplit("::", 1)[-1].split("<")[0] in ("filter", "take_if", "and_then", "xor", "filter_map", "then", "then_some", "take") and "Option" in x[1] for x in leaves(v)):
+                        verdict = False
+        ctx.ob(rule, "mask-unfiltered/%s" % rep, verdict, "%s.mask is %s (must be the descriptor Blob::from_parent_node(\"imageMask\") found, unfiltered)" % (rep, desc))
     ctx.floor(rule, "representations with a mask tag", n, 4)
